@@ -457,7 +457,7 @@ func handleZINCRBY(params internal.HandlerFuncParams) ([]byte, error) {
 	if _, err = set.AddOrUpdate(
 		[]MemberParam{
 			{Value: member, Score: increment}},
-		"xx",
+		nil,
 		nil,
 		nil,
 		"incr"); err != nil {
